@@ -4,6 +4,7 @@ package main
 
 import (
 	"bufio"
+	"bytes"
 	"encoding/json"
 	"math/big"
 	"math/rand"
@@ -40,6 +41,7 @@ type skelStep struct {
 	T    int    `json:"t"`
 	B    int    `json:"b"`
 	C    int    `json:"c"`
+	M    int    `json:"m"`
 	Cls  string `json:"cls"`
 	Kind string `json:"kind"`
 }
@@ -141,6 +143,41 @@ func contentFor(rng *rand.Rand, cls string, small []xy) []byte {
 			x = add(x, 1)
 		}
 		return be32(x)[:]
+	case "u_exc": // Z u^2 = -1 with Z = -11: u = sqrt(1/11), in 32, 48 or 64 bytes, possibly as u + p
+		u := sqrtP(new(big.Int).ModInverse(big.NewInt(11), bigP))
+		if rng.Intn(2) == 0 {
+			u = new(big.Int).Sub(bigP, u)
+		}
+		switch rng.Intn(4) {
+		case 0:
+			return be32(u)[:]
+		case 1:
+			return append(make([]byte, 16), be32(u)[:]...)
+		case 2:
+			return append(make([]byte, 32), be32(u)[:]...)
+		}
+		w := new(big.Int).Add(u, bigP).Bytes()
+		return append(make([]byte, 48-len(w)), w...)
+	case "spki_unc":
+		return privFrom(add(randBig(rng, add(bigN, -2)), 1)).PublicKey().ASN1Bytes()
+	case "spki_cmp", "spki_bits", "spki_inf":
+		pt := privFrom(add(randBig(rng, add(bigN, -2)), 1)).PublicKey().CompressedBytes()
+		if cls == "spki_inf" {
+			pt = []byte{0}
+		}
+		alg := []byte{0x30, 0x10, 0x06, 0x07, 0x2a, 0x86, 0x48, 0xce, 0x3d, 0x02, 0x01, 0x06, 0x05, 0x2b, 0x81, 0x04, 0x00, 0x0a}
+		unused := byte(0)
+		if cls == "spki_bits" {
+			unused = byte(1 + rng.Intn(7))
+		}
+		body := append(append(append([]byte{}, alg...), 0x03, byte(len(pt)+1), unused), pt...)
+		return append([]byte{0x30, byte(len(body))}, body...)
+	case "btc_junk":
+		return append(secec.BuildASN1Signature(scFrom(big.NewInt(5)), scFrom(big.NewInt(7))), 0x01)
+	case "sig_junk":
+		return append(append(append([]byte{}, be32(big.NewInt(5))[:]...), be32(big.NewInt(7))[:]...), byte(rng.Intn(2)))
+	case "der_junk":
+		return secec.BuildASN1Signature(scFrom(big.NewInt(5)), scFrom(big.NewInt(7)))
 	}
 	return []byte{1, 2, 3}
 }
@@ -195,6 +232,9 @@ func driveAPI(c *ctx) {
 			}
 			if s.B+1 > nb {
 				nb = s.B + 1
+			}
+			if s.M+1 > nb {
+				nb = s.M + 1
 			}
 		}
 		// scalar slots double as operands p, q of sc.Add / sc.Multiply
@@ -259,9 +299,9 @@ func execAPI(c *ctx, rng *rand.Rand, pl *apiPool, s skelStep, small []xy) {
 		case "pt.Set":
 			pl.pt[s.V].Set(pl.pt[s.P])
 		case "pt.CondNegate":
-			pl.pt[s.V].ConditionalNegate(pl.pt[s.P], uint64(s.C))
+			pl.pt[s.V].ConditionalNegate(pl.pt[s.P], ctrlWord(s.C, s.V+s.P+c.n))
 		case "pt.CondSelect":
-			pl.pt[s.V].ConditionalSelect(pl.pt[s.P], pl.pt[s.Q], uint64(s.C))
+			pl.pt[s.V].ConditionalSelect(pl.pt[s.P], pl.pt[s.Q], ctrlWord(s.C, s.V+s.P+c.n))
 		case "pt.Equal":
 			reply = int(pl.pt[s.P].Equal(pl.pt[s.Q]))
 		case "pt.IsIdentity":
@@ -403,6 +443,8 @@ func execAPI(c *ctx, rng *rand.Rand, pl *apiPool, s skelStep, small []xy) {
 			if err == nil {
 				pl.pt[s.V] = p
 			}
+		case "pt.SetUniform":
+			pl.pt[s.V].SetUniformBytes(pl.buf[s.B])
 		case "pt.Recover":
 			p, err := secp256k1.RecoverPoint(pl.sc[s.S], byte(s.C))
 			fail(err)
@@ -458,6 +500,63 @@ func execAPI(c *ctx, rng *rand.Rand, pl *apiPool, s skelStep, small []xy) {
 				panic("harness: no Schnorr public key object")
 			}
 			pl.pt[s.V] = pl.spub.Point()
+		case "key.Sign":
+			if pl.priv == nil {
+				panic("harness: no private key object")
+			}
+			sig, err := pl.priv.Sign(secec.RFC6979SHA256(), pl.buf[s.M], &secec.ECDSAOptions{Encoding: secec.SignatureEncoding(s.C)})
+			fail(err)
+			if err == nil {
+				pl.buf[s.B] = sig // the caller keeps the returned slice
+			}
+		case "key.Verify":
+			if pl.pub == nil {
+				panic("harness: no public key object")
+			}
+			reply = b2i(pl.pub.Verify(pl.buf[s.M], pl.buf[s.B], &secec.ECDSAOptions{Encoding: secec.SignatureEncoding(s.C)}))
+		case "key.Recover":
+			r, sv, v, err := secec.ParseCompactRecoverableSignature(pl.buf[s.B])
+			fail(err)
+			if err == nil {
+				k, err := secec.RecoverPublicKey(pl.buf[s.M], r, sv, v)
+				fail(err)
+				if err == nil {
+					pl.pub, pl.priv = k, nil
+				}
+			}
+		case "btc.Verify":
+			if pl.pub == nil {
+				panic("harness: no public key object")
+			}
+			reply = b2i(bitcoin.VerifyASN1(pl.pub, pl.buf[s.M], pl.buf[s.B]))
+		case "key.PubASN1":
+			if pl.pub == nil {
+				panic("harness: no public key object")
+			}
+			pl.buf[s.B] = pl.pub.ASN1Bytes()
+		case "key.ParseASN1":
+			k, err := secec.ParseASN1PublicKey(pl.buf[s.B])
+			fail(err)
+			if err == nil {
+				pl.pub, pl.priv = k, nil
+			}
+		case "env.AppendByte": // grows the slice IN PLACE when it has spare capacity (as append does)
+			pl.buf[s.B] = append(pl.buf[s.B], 1)
+			content = hx(pl.buf[s.B])
+		case "skey.Sign":
+			if pl.spriv == nil {
+				panic("harness: no Schnorr private key object")
+			}
+			sig, err := pl.spriv.Sign(bytes.NewReader(make([]byte, 32)), pl.buf[s.M], nil)
+			fail(err)
+			if err == nil {
+				pl.buf[s.B] = sig
+			}
+		case "spub.Verify":
+			if pl.spub == nil {
+				panic("harness: no Schnorr public key object")
+			}
+			reply = b2i(pl.spub.Verify(pl.buf[s.M], pl.buf[s.B]))
 		case "env.LoadBuf":
 			pl.buf[s.B] = contentFor(rng, s.Cls, small)
 			content = hx(pl.buf[s.B])
@@ -481,6 +580,15 @@ func execAPI(c *ctx, rng *rand.Rand, pl *apiPool, s skelStep, small []xy) {
 	if pn {
 		kind = "panic"
 	}
-	kv := []any{"op", s.Op, "v", s.V, "p", s.P, "q", s.Q, "s", s.S, "t", s.T, "b", s.B, "c", s.C, "cls", s.Cls, "content", content, "kind", kind, "reply", reply, "model_kind", s.Kind}
+	kv := []any{"op", s.Op, "v", s.V, "p", s.P, "q", s.Q, "s", s.S, "t", s.T, "b", s.B, "c", s.C, "m", s.M, "cls", s.Cls, "content", content, "kind", kind, "reply", reply, "model_kind", s.Kind}
 	c.E("api.Step", append(kv, pl.project()...)...)
+}
+
+// ctrlWord maps the model's control class to a control word: 0, 1, or (class 2) a word that is neither.
+func ctrlWord(c, salt int) uint64 {
+	switch c {
+	case 0, 1:
+		return uint64(c)
+	}
+	return [...]uint64{2, 1 << 63, 0xffffffffffffffff, 0x100, 0xfffffffffffffffe}[salt%5]
 }
